@@ -791,7 +791,8 @@ impl Edges {
         // TODO(zanieb): We need to make sure this is performant, repeated unions like this do not
         // seem efficient.
         for version in versions {
-            range = range.union(&Ranges::singleton(version.clone()));
+            // Markers are release-only (see `normalize_specifier`).
+            range = range.union(&Ranges::singleton(version.only_release()));
         }
 
         if negated {
